@@ -306,6 +306,12 @@ def check_degeneracy(ctx, model_ok):
         o = G.random_opts(rng)
         o['shuffle_elems'] = rng.random() < 0.5
         meshes.append(degen_mesh(rng, o, with_prisms=k % 2 == 0, bad_pattern=(k % 6 == 5)))
+    # single-type hex meshes whose element ids are NOT ascending in storage
+    for pat in list(G.PATTERN_MODES) + ['unsorted', 'unsorted']:
+        o = G.random_opts(rng)
+        o['elem_ids'] = pat
+        o['shuffle_elems'] = True
+        meshes.append(degen_mesh(rng, o, with_prisms=False))
     tasks = [{'id': i, 'kind': 'degen', 'mesh': mesh_of(m)} for i, m in enumerate(meshes)]
     res = run_impl(ctx, tasks, 'degen')
     items, n_bad = [], 0
@@ -366,6 +372,34 @@ def check_degeneracy(ctx, model_ok):
                     problems.append(f'volumes not computable ({mode}): {vb.get("error")} {va.get("error")}')
             if not r.get('nodes_same'):
                 problems.append('node table changed')
+            # the RETURNED object, freshly evaluated, must give each id its own volume
+            obj_problems = []
+            vb = r['before_centroid']
+            for key in ('result_obj_centroid', 'result_obj_metrics'):
+                va = r.get(key, {})
+                if 'values' in vb and 'values' in va:
+                    b = dict(zip(vb['ids'], map(hexq, vb['values'])))
+                    a = dict(zip(va['ids'], map(hexq, va['values'])))
+                    for e in b:
+                        if e in a and abs(a[e] - b[e]) > Fraction(1, 2 ** 14) * max(1, abs(b[e])):
+                            obj_problems.append(f'{key}: element {e}: {float(b[e])} -> {float(a[e])}')
+                elif 'values' in vb and 'NotImplementedError' not in str(va.get('error')):
+                    obj_problems.append(f'{key}: {va.get("error")}')
+            if obj_problems:
+                n_bad += 1
+                src_blocks = [b[0] for b in m['blocks']]
+                hex_ids = blocks['hex'][1]
+                ctx.violation('impl-violation', {'op': 'resolve_degeneracy', 'mesh': mesh_of(m),
+                                                 'labelling': labelling(m)},
+                              'volumes evaluated on the returned object: each element id keeps its volume',
+                              obj_problems[:6],
+                              'C18_degenerate_hex_is_prism + C18_stale_id_index_refuted (oracle on the returned object)',
+                              found_input=True,
+                              signature={'kind': 'degeneracy-result-object',
+                                         'source_single_type_hex': src_blocks == ['hex'],
+                                         'element_ids_ascending_in_storage': ascending(hex_ids)},
+                              what='resolve_degeneracy: volumes queried on the returned mesh are attached '
+                                   'to the wrong element ids: ' + obj_problems[0])
             ctx.notes['oracle_evaluations'] = ctx.notes.get('oracle_evaluations', 0) + len(before)
             if problems:
                 n_bad += 1
@@ -593,7 +627,18 @@ def replay(path):
     return 1
 
 
+def _hold_c11_lock():
+    """C18 regenerates and builds against coq/C11/gen/Kernels.v: serialise with any
+    concurrent `flock build/.seed_C11.lock ./check C11` (possibly on another tree)"""
+    import fcntl
+    lib.BUILD.mkdir(exist_ok=True)
+    f = open(lib.BUILD / '.seed_C11.lock', 'w')
+    fcntl.flock(f, fcntl.LOCK_EX)
+    return f
+
+
 if __name__ == '__main__':
+    _c11_lock = _hold_c11_lock()
     if len(sys.argv) > 2 and sys.argv[1] == 'replay':
         sys.exit(replay(sys.argv[2]))
     tier = sys.argv[1] if len(sys.argv) > 1 else 'quick'
